@@ -1293,8 +1293,7 @@ def gen_cov_records(tier):
     diag('0 FIX', [(0.0, True)])
     diag('1E-2 2.5E-1', [(0.01, False), (0.25, False)])
 
-    sizes = (1, 2, 3)
-    for n in sizes:
+    for n in (1, 2, 3):
         nums = _BLOCK_NUMS[n]
         rows = _fmt_rows(nums, n)
         flat = ' '.join(rows)
@@ -1460,9 +1459,6 @@ def _check_cov(model, seq, name):
                                   f'{[s.name for s in syms]}, previous block {[str(s) for s in prev_syms]}'))
             else:
                 used_syms.extend(s.name for s in syms)
-                for i, s in enumerate(syms):
-                    # diagonal elements: cannot be negative
-                    pass
             prev_syms = syms
             off += n
     if off != M.shape[0]:
@@ -1507,7 +1503,6 @@ _FAMILY_TEXT = {
 def _check_param_case(case):
     """case = {'theta': (text, expected) , 'omega': seq, 'sigma': seq} -> list of fail tuples
     (fid, clause, detail, part)"""
-    from pharmpy.model import ModelSyntaxError  # noqa: F401
     from pharmpy.modeling import read_model_from_string
 
     _speedup()
@@ -2096,7 +2091,7 @@ FID_UPDATE_ODE = 'src/pharmpy/model/external/nonmem/update.py:update_ode_system'
 FID_UPDATE_PARAMS = 'src/pharmpy/model/external/nonmem/update.py:update_thetas'
 FID_UPDATE_RVS = 'src/pharmpy/model/external/nonmem/update.py:update_random_variables'
 FID_PRINTER = CODE_RECORD + ':NMTranPrinter'
-FID_PIECEWISE = CODE_RECORD + ':_translate_sympy_piecewise'
+FID_PIECEWISE = CODE_RECORD + ':_translate_condition'
 FID_UPDATE_STATEMENTS = CODE_RECORD + ':CodeRecord.update_statements'
 
 
@@ -2328,7 +2323,6 @@ def _check_roundtrip_case(seq):
         with tempfile.TemporaryDirectory() as d:
             path = os.path.join(d, 'run1.mod')
             write_model(model, path, force=True)
-            code = open(path).read()
             back = read_model(path)
             back.dataset  # noqa: B018
             diffs = _compare_models(model, back)
@@ -2346,7 +2340,6 @@ def _check_roundtrip_case(seq):
             seen.add(what)
             fid, clause = _RT_CLAUSE[what]
             fails.append((fid, clause, f'{tag}: {detail}'))
-    del code
     return (True, fails)
 
 
@@ -2467,6 +2460,48 @@ def gen_print_cases(tier):
     return cases, nexpr
 
 
+_COND_CLASSES = ['atoms or And/Or of 2 atoms', 'And/Or of 3 atoms', 'And of Or / Or of And',
+                 'Not of And/Or']
+
+
+def _print_kind(case):
+    if case[0] == 'expr':
+        return 'arithmetic expression'
+    rank = 0
+    for c in case[2]:
+        if c[0] in ('not_and', 'not_or'):
+            r = 3
+        elif c[0] in ('and_or', 'or_and'):
+            r = 2
+        elif len(c) == 4:
+            r = 1
+        else:
+            r = 0
+        rank = max(rank, r)
+    return f'Piecewise (conditions: {_COND_CLASSES[rank]})'
+
+
+def _statement_text(pred, name):
+    """source lines of the top level statements (whole IF blocks) that mention name"""
+    groups = []
+    cur = []
+    depth = 0
+    for ln in pred:
+        s = ln.strip()
+        if not s:
+            continue
+        cur.append(s)
+        up = re.sub(r'\s+', '', s.upper())
+        if up.startswith('IF(') and up.endswith('THEN'):
+            depth += 1
+        elif up == 'ENDIF':
+            depth -= 1
+        if depth == 0:
+            groups.append(cur)
+            cur = []
+    return ' | '.join(' | '.join(g) for g in groups if any(re.search(rf'\b{name}\b', x) for x in g))
+
+
 def _extract_pred(code):
     lines = code.split('\n')
     out = []
@@ -2492,7 +2527,7 @@ def _check_print_batch(cases):
     base = read_model_from_string(_PRED_TEMPLATE % 'VZ = WGT')
     exprs = [_pr_build_case(c) for c in cases]
     new = [Assignment.create(sympy.Symbol(f'X{i}'), e) for i, e in enumerate(exprs)]
-    kindtxt = lambda c: 'arithmetic expression' if c[0] == 'expr' else 'Piecewise'  # noqa: E731
+    kindtxt = _print_kind
     fid_of = lambda c: FID_PRINTER if c[0] == 'expr' else FID_PIECEWISE  # noqa: E731
     try:
         model = base.replace(statements=Statements(new) + base.statements)
@@ -2550,7 +2585,7 @@ def _check_print_batch(cases):
         name = f'X{i}'
         fails = []
         nontrivial = False
-        text = ' | '.join(ln.strip() for ln in pred if re.search(rf'\b{name}\b', ln))
+        text = _statement_text(pred, name)
         for gi, point in enumerate(GRID):
             try:
                 want = ir_eval(e, dict(point))
